@@ -141,8 +141,10 @@ Definition num_add (a b : num) : num :=
   | Big sa da, Big sb db => normalize (big_num (bignum_add (sb, db) (sa, da)))
   end.
 
-(** sexp_sub (bignum.c:1374-1431).  FIX_FIX is the raw tag subtraction sexp_fx_sub ("VM catches
-    this case"): it wraps in 63 bits. *)
+(** sexp_sub (bignum.c:1396-1470).  FIX_FIX (round 2, after fix C04-sub-fixnum-difference-overflow):
+    the difference is computed in a sexp_sint_t (two 62-bit values cannot wrap in 64 bits) and handed
+    over to sexp_sub(bignum a, b) = the BIG_FIX case when it does not fit a fixnum.  [wrap_fix] is the
+    63-bit wrap of sexp_fx_neg (used by [negate]). *)
 Definition wrap_fix (z : Z) : Z := (z - FIXMIN) mod (2 * (FIXMAX + 1)) + FIXMIN.
 (** sexp_negate_exact on a freshly made result (sexp.h:1070): sign flip in place for a bignum,
     sexp_fx_neg (which wraps at MIN_FIXNUM) for a fixnum *)
@@ -150,7 +152,11 @@ Definition negate (x : num) : num :=
   match x with Fix z => Fix (wrap_fix (- z)) | Big s d => Big (- s) d end.
 Definition num_sub (a b : num) : num :=
   match a, b with
-  | Fix x, Fix y => Fix (wrap_fix (x - y))
+  | Fix x, Fix y =>
+      let diff := x - y in
+      if (diff <? FIXMIN) || (diff >? FIXMAX)
+      then normalize (big_num (bignum_sub (fixnum_to_bignum x) (fixnum_to_bignum y)))
+      else Fix diff
   | Fix x, Big s d => normalize (negate (big_num (bignum_sub (s, d) (fixnum_to_bignum x))))
   | Big s d, Fix y => normalize (big_num (bignum_sub (s, d) (fixnum_to_bignum y)))
   | Big sa da, Big sb db => normalize (big_num (bignum_sub (sa, da) (sb, db)))
